@@ -127,6 +127,7 @@ def gen(rng, tier, idx):
             c['mgr'] = 'handler'
         c['kind'] = 'minmax'
         c['partly_real'] = rng.random() < 0.4
+        c['gather_on_renumbered_comm'] = rng.random() < 0.25
         c['ops'] = []
         if c['dtype'] == 'int64':
             c['dtype'] = 'float64'      # Grid holds real or complex fields only
@@ -359,6 +360,7 @@ def run_minmax(case, tape):
         grid = Grid(eta, [], h, names[0], comm, dtype=dt)
         grid.getAllData()[:] = cm.local(G, h.getLayout(names[0]))
         out = []
+        comm2 = None
         for call in case['calls']:
             if grid.currentLayout != call['layout']:
                 grid.setLayout(call['layout'])
@@ -374,7 +376,14 @@ def run_minmax(case, tape):
                 d = {}
                 for k, v in call['sel'].items():
                     d[int(k)] = v if isinstance(v, int) else range(v[0], v[1])
-                res = grid.getBlockFromDict(d, comm, call['root'])
+                gcomm = comm
+                if case.get('gather_on_renumbered_comm'):
+                    # the figure is gathered on another communicator than the one the grid was built on (same
+                    # processes, other numbering): the root is a rank of the communicator handed in
+                    if 'comm2' not in locals() or comm2 is None:
+                        comm2 = comm.Split(0, comm.Get_size() - comm.Get_rank())
+                    gcomm = comm2
+                res = grid.getBlockFromDict(d, gcomm, call['root'])
                 if res is not None:
                     lay_r, starts, mpi_data, sl = res
                     res = ([int(x) for x in starts], [[int(y) for y in x] for x in mpi_data],
@@ -401,7 +410,8 @@ def run_minmax(case, tape):
                             raise OracleFail('wrong-reduction', dict(call=call, got=got, want=want))
                     # (what the other ranks get back is not constrained by the property)
             else:
-                got = results[root][ci][1]
+                holder_rank = (len(results) - 1 - root) if case.get('gather_on_renumbered_comm') else root
+                got = results[holder_rank][ci][1]
                 if got is None:
                     raise OracleFail('wrong-block', dict(call=call, why='root got None'))
                 starts, mpi_data, sl = got
